@@ -43,6 +43,8 @@ META = {
 }
 
 
+W_SEEN_INIT = z3.BoolVal(False)      # 'the loop has not run yet' (identity-compared)
+
 def registry():
     reg = base_registry()
     misc.install_rlock(reg)
@@ -415,7 +417,7 @@ def h_load_inflight(faults: bool):
                 raise PyRaise(SExc("GarbageCollectionAborted", origin="_marker_target: marker unreadable", fields={"fault": True}))
             return pyops.mk_str(TARGET(pyops.str_z(mp)))
         h.reg.contracts[f"{GC}:GarbageCollector._marker_target"] = marker_target
-        g = {"w_seen": z3.BoolVal(False)}
+        g = {"w_seen": W_SEEN_INIT}
         kw = z3.String("witness_abandoned_key")
         h.report("witness_abandoned_key", kw)
 
@@ -491,7 +493,8 @@ def h_load_inflight(faults: bool):
             h.ensure("MARKER-KEEP:marker-listing-failure=>raise(not-an-empty-protection-set)", z3.BoolVal(False),
                      classes=[("marker-listing-fault-drops-all-protection", z3.BoolVal(True))])
             return
-        h.assume(z3.Implies(listed_w, g["w_seen"]), "rule ALL-VISITED")
+        if g["w_seen"] is not W_SEEN_INIT:       # only a loop that ran has visited the listing (an early return gets no such fact)
+            h.assume(z3.Implies(listed_w, g["w_seen"]), "rule ALL-VISITED")
         if not (isinstance(val, tuple) and len(val) == 2):
             h.fail("MARKER-KEEP:returns-(protected,abandoned)")
             return
@@ -524,7 +527,7 @@ def h_sweep(faults: bool):
         h.assume(z3.PrefixOf(z3.StringVal("metadata/inflight/"), wz))
         h.report("witness_abandoned_marker", wz)
         ex0 = st.ex
-        g = {"w_seen": z3.BoolVal(False), "w_removed": z3.BoolVal(False)}
+        g = {"w_seen": W_SEEN_INIT, "w_removed": z3.BoolVal(False)}
 
         def on_event(ev):
             if ev["op"] == "delete_file":
@@ -551,7 +554,8 @@ def h_sweep(faults: bool):
         if out == "raise":
             h.fail("MARKER-KEEP:sweep-never-raises(a-failing-delete-keeps-the-protection)", detail=repr(val))
             return
-        h.assume(z3.Implies(z3.Select(has0, wz), g["w_seen"]), "rule ALL-VISITED")
+        if g["w_seen"] is not W_SEEN_INIT:
+            h.assume(z3.Implies(z3.Select(has0, wz), g["w_seen"]), "rule ALL-VISITED")
         gone = z3.And(z3.Select(ex0, wz), z3.Not(z3.Select(st.ex, wz)))
         kept = z3.IsMember(z3.Select(val0, wz), val.z) if isinstance(val, SSetZ) else z3.BoolVal(False)
         h.ensure("MARKER-KEEP:an-unswept-marker-keeps-protecting",
